@@ -22,6 +22,7 @@ THEOREMS = [
     "Mesa.Cont.C10_exp_positions_have_dimension",
     "Mesa.Cont.C10_exp_last_assignment",
     "Mesa.Cont.C10_exp_fresh_agent",
+    "Mesa.Cont.C10_exp_every_agent_has_a_row",
     "Mesa.Cont.C10_legacy_last_assignment",
     "Mesa.Cont.C10_exp_history_vectors_normalise",
     "Mesa.Cont.C10_legacy_valid_calls_succeed",
